@@ -14,11 +14,12 @@ import (
 type Config struct {
 	Caps    []int // arguments of NewWorld (0, 1 or 2 values)
 	Fillers int   // filler component types registered before the universe
+	Late    int   // further filler types that may be registered during the history
 	Perm    []int // registration order of the universe types
 }
 
 func (c Config) String() string {
-	return fmt.Sprintf("caps=%v fillers=%d perm=%v", c.Caps, c.Fillers, c.Perm)
+	return fmt.Sprintf("caps=%v fillers=%d late=%d perm=%v", c.Caps, c.Fillers, c.Late, c.Perm)
 }
 
 // Violation is a monitor finding.
